@@ -45,6 +45,13 @@ inductive X where
   | len (s : X)                    -- `slice.len()`
   | dbg (s : X)                    -- `f.debug_tuple(..).field(&slice).finish()`
   | outObj                         -- the struct value under construction, as a value
+  | hintLo                         -- lower bound of the source's `size_hint()`
+  | hintHi                         -- the upper bound `h` inside `hintHiAnd` (`Some(h)`)
+  | hintHiAnd (g : X)              -- `(_, Some(h)) if g`: the upper bound exists and `g` holds of it
+  | isSome (a : X)
+  | err                            -- `Err(LengthError)`
+  | ok (a : X)                     -- `Ok(a)`
+  | arrOut                         -- `array_assume_init(array)`: the array the builder filled
 deriving Repr
 
 inductive V where
@@ -54,6 +61,7 @@ inductive V where
   | slot (o : Obj) (i : Nat) | slice (o : Obj) (lo hi : Nat)
   | dbg (l : List Nat)
   | obj
+  | err | ok (v : V) | arr (l : List Nat)
 deriving Repr, DecidableEq
 
 /-- statements, in continuation-passing form (`k` is the rest of the block) -/
@@ -73,6 +81,18 @@ inductive S where
   | newOut (moved : Bool) (idx idxb : X) (k : S)
                                               -- `let out = Struct { array: <all of self's slots>, index, index_back }`
                                               -- `moved`: the array was moved in (self gives up ownership)
+  | newBuilder (k : S)                        -- `let mut array = uninit(); let mut builder = IntrusiveArrayBuilder::new(&mut array);`
+  | fillS (destFirst : Bool) (body : S) (k : S)
+                                              -- `destination.zip(source).for_each(|(dst, src)| body)` over the builder's
+                                              -- slots and the caller's iterator; binds `dst`, `src`
+  | pollS (k : S)                             -- `let b = iter.next().is_some();` on the caller's iterator: binds the
+                                              -- Bool; a yielded item is a temporary, dropped at once
+  | forgetO (o : Obj) (k : S)                 -- `mem::forget(o)` (`builder.finish()`)
+  | lenFail                                   -- `from_iter_length_fail(N)`: the "expected N items" panic
+  | forSlots (body : S) (k : S)               -- `builder_iter.enumerate().for_each(|(i, dst)| body)`: binds `i`, `dst`
+  | callG (arg : X) (k : S)                   -- `let v = f(arg);`: the caller's closure returns a value (binds it)
+  | endOut (k : S)                            -- an inlined callee returns: its local builder, unless forgotten, is
+                                              -- dropped here (`Drop for IntrusiveArrayBuilder`: `array[..position]`)
   | opaque (why : Nat)                        -- a statement the translator could not lower
 deriving Repr
 
@@ -81,6 +101,7 @@ structure O where
   index : Nat
   indexBack : Nat
   position : Nat
+  uninit : List Nat      -- indices of slots that were never written (`MaybeUninit` storage of a builder)
 deriving Repr, DecidableEq
 
 structure St where
@@ -89,6 +110,13 @@ structure St where
   hasOut : Bool      -- the local struct value exists (and is owned by the running function)
   calls : Nat        -- number of caller-code calls made so far
   forgot : Bool      -- `mem::forget(self)` ran / `self` was moved into `out`
+  polls : Nat        -- number of `next()` calls made on the caller's iterator
+  outForgot : Bool   -- `mem::forget(out)` ran (`builder.finish()`)
+deriving Repr, DecidableEq
+
+/-- one `next()` call on the caller's iterator -/
+inductive Poll where
+  | yield (x : Nat) | done | panic
 deriving Repr, DecidableEq
 
 structure Ctx where
@@ -96,10 +124,13 @@ structure Ctx where
   bad : Option Nat            -- the element whose destructor panics
   fpan : Nat → Bool           -- caller closure panics on call k
   cl : Nat → Option Nat       -- k-th `Clone::clone` result (`none`: panics)
+  src : Nat → Poll := fun _ => .done      -- k-th `next()` of the caller's iterator
+  hint : Nat × Option Nat := (0, none)    -- its `size_hint()`
 
 inductive R where
   | ret (v : V) | panicked | ub
 deriving Repr, DecidableEq
+
 
 def word : Nat := 18446744073709551616
 
@@ -212,8 +243,28 @@ def eval (c : Ctx) (env : List V) (st : St) : X → Option V
     | some (.slice o lo hi) => some (.dbg (((st.obj o).slots.drop lo).take (hi - lo)))
     | _ => none
   | .outObj => if st.hasOut then some .obj else none
+  | .hintLo => some (.nat c.hint.1)
+  | .hintHi => c.hint.2.map .nat
+  | .hintHiAnd g =>
+    match c.hint.2 with
+    | none => some (.bool false)
+    | some _ => (boolOf (eval c env st g)).map .bool
+  | .isSome a =>
+    match eval c env st a with
+    | some (.some _) => some (.bool true)
+    | some .none => some (.bool false)
+    | _ => none
+  | .err => some .err
+  | .ok a => (eval c env st a).map .ok
+  | .arrOut => if st.hasOut && st.out.uninit.isEmpty then some (.arr st.out.slots) else none
 
 def idsOf (o : O) (lo hi : Nat) : List Nat := (o.slots.drop lo).take (hi - lo)
+
+/-- `drop_in_place(o.array[lo..hi])`: a destructor run per slot; running one on a slot that was
+    never written is undefined behaviour (`dropUninit`) -/
+def dropEvs (o : O) (lo hi : Nat) : List Ev :=
+  if o.uninit.isEmpty then (idsOf o lo hi).map .drop
+  else (List.range' lo (hi - lo)).map fun p => if o.uninit.contains p then Ev.dropUninit else .drop (o.slots.getD p 0)
 
 def panics (ids : List Nat) (bad : Option Nat) : Bool :=
   match bad with
@@ -229,6 +280,29 @@ def loopOver (body : V → St → List Ev × R × St) : List V → St → List E
       let r := loopOver body ps st'
       (tr ++ r.1, r.2)
     | r => r
+
+/-- `destination.zip(source).for_each(body)`: one destination slot and one `next()` of the caller's
+    iterator per round.  `Zip` polls its first operand first: with `destFirst` the source is not
+    polled once the destination is exhausted; otherwise it is polled once more and a yielded item is
+    dropped by `Zip`. -/
+def fillLoop (c : Ctx) (destFirst : Bool) (body : V → V → St → List Ev × R × St) : List V → St → List Ev × R × St
+  | [], st =>
+    if destFirst then ([], .ret .unit, st)
+    else
+      match c.src st.polls with
+      | .yield x => ([.poll st.polls, .take st.polls x, .drop x], .ret .unit, { st with polls := st.polls + 1 })
+      | .done => ([.poll st.polls], .ret .unit, { st with polls := st.polls + 1 })
+      | .panic => ([.poll st.polls, .panic st.polls], .panicked, { st with polls := st.polls + 1 })
+  | d :: ds, st =>
+    match c.src st.polls with
+    | .yield x =>
+      match body d (.elem x) { st with polls := st.polls + 1 } with
+      | (tr, .ret _, st') =>
+        let r := fillLoop c destFirst body ds st'
+        (.poll st.polls :: .take st.polls x :: tr ++ r.1, r.2)
+      | (tr, r, st') => (.poll st.polls :: .take st.polls x :: tr, r, st')
+    | .done => ([.poll st.polls], .ret .unit, { st with polls := st.polls + 1 })
+    | .panic => ([.poll st.polls, .panic st.polls], .panicked, { st with polls := st.polls + 1 })
 
 def positions (o : Obj) (lo hi : Nat) : List V := (List.range' lo (hi - lo)).map (V.slot o)
 
@@ -249,10 +323,10 @@ def exec (c : Ctx) : S → List V → St → List Ev × R × St
     match eval c env st sl with
     | some (.slice o lo hi) =>
       let ids := idsOf (st.obj o) lo hi
-      if panics ids c.bad then (ids.map .drop, .panicked, st)
+      if panics ids c.bad then (dropEvs (st.obj o) lo hi, .panicked, st)
       else
         let r := exec c k env st
-        (ids.map .drop ++ r.1, r.2)
+        (dropEvs (st.obj o) lo hi ++ r.1, r.2)
     | _ => ([], .ub, st)
   | .ite cnd t e, env, st =>
     match boolOf (eval c env st cnd) with
@@ -303,13 +377,58 @@ def exec (c : Ctx) : S → List V → St → List Ev × R × St
   | .write dst v k, env, st =>
     match eval c env st dst, eval c env st v with
     | some (.slot o i), some (.elem y) =>
-      exec c k env (st.putObj o { (st.obj o) with slots := (st.obj o).slots.set i y })
+      exec c k env (st.putObj o { (st.obj o) with slots := (st.obj o).slots.set i y, uninit := (st.obj o).uninit.erase i })
     | _, _ => ([], .ub, st)
   | .newOut moved idx idxb k, env, st =>
     match natOf (eval c env st idx), natOf (eval c env st idxb) with
     | some i, some b =>
-      exec c k env { st with out := ⟨st.self.slots, i, b, 0⟩, hasOut := true, forgot := st.forgot || moved }
+      exec c k env { st with out := ⟨st.self.slots, i, b, 0, []⟩, hasOut := true, forgot := st.forgot || moved }
     | _, _ => ([], .ub, st)
+  | .newBuilder k, env, st =>
+    exec c k env { st with out := ⟨List.replicate c.n 0, 0, 0, 0, List.range c.n⟩, hasOut := true, outForgot := false }
+  | .fillS destFirst body k, env, st =>
+    match fillLoop c destFirst (fun d x s => exec c body (env ++ [d, x]) s) (positions .out 0 st.out.slots.length) st with
+    | (tr, .ret _, st') =>
+      let r := exec c k env st'
+      (tr ++ r.1, r.2)
+    | r => r
+  | .pollS k, env, st =>
+    match c.src st.polls with
+    | .yield x =>
+      let r := exec c k (env ++ [.bool true]) { st with polls := st.polls + 1 }
+      (.poll st.polls :: .take st.polls x :: .drop x :: r.1, r.2)
+    | .done =>
+      let r := exec c k (env ++ [.bool false]) { st with polls := st.polls + 1 }
+      (.poll st.polls :: r.1, r.2)
+    | .panic => ([.poll st.polls, .panic st.polls], .panicked, { st with polls := st.polls + 1 })
+  | .forgetO o k, env, st =>
+    match o with
+    | .self => exec c k env { st with forgot := true }
+    | .out => exec c k env { st with outForgot := true }
+  | .lenFail, _, st => ([.lenFail], .panicked, st)
+  | .forSlots body k, env, st =>
+    match loopOver (fun p s =>
+        match p with
+        | .pair i d => exec c body (env ++ [i, d]) s
+        | _ => ([], .ub, s)) ((List.range st.out.slots.length).map fun p => V.pair (.nat p) (.slot .out p)) st with
+    | (tr, .ret _, st') =>
+      let r := exec c k env st'
+      (tr ++ r.1, r.2)
+    | r => r
+  | .callG arg k, env, st =>
+    match natOf (eval c env st arg) with
+    | some a =>
+      match c.cl a with
+      | some y =>
+        let r := exec c k (env ++ [.elem y]) { st with calls := st.calls + 1 }
+        (.take a y :: r.1, r.2)
+      | none => ([.panic a], .panicked, { st with calls := st.calls + 1 })
+    | none => ([], .ub, st)
+  | .endOut k, env, st =>
+    if st.hasOut && !st.outForgot then
+      let r := exec c k env { st with outForgot := true }
+      (dropEvs st.out 0 st.out.position ++ r.1, r.2)
+    else exec c k env st
   | .opaque _, _, st => ([], .ub, st)
 
 /-- receiver of a method -/
@@ -342,7 +461,7 @@ def runFn (c : Ctx) (dropBody : S) (f : Fn) (args : List V) (st : St) : List Ev 
   | res =>
     let returnsOut := res == .ret .obj
     let d1 : List Ev × R :=
-      if st'.hasOut && !returnsOut then runDropOn c dropBody .out st' else ([], .ret .unit)
+      if st'.hasOut && !returnsOut && !st'.outForgot then runDropOn c dropBody .out st' else ([], .ret .unit)
     let d2 : List Ev × R :=
       if f.recv == .owned && !st'.forgot then runDropOn c dropBody .self st' else ([], .ret .unit)
     let res' :=
@@ -376,6 +495,14 @@ def loopBodyOf : S → S
   | .newOut _ _ _ k => loopBodyOf k
   | .foldS _ _ b _ => b
   | .zipS _ _ b _ => b
+  | .ite _ _ e => loopBodyOf e
+  | .newBuilder k => loopBodyOf k
+  | .fillS _ b _ => b
+  | .forSlots b _ => b
   | _ => .opaque 0
+
+/-- the per-round function of a `fillS` loop, as a named constant -/
+def fillBody (c : Ctx) (body : S) (env : List V) : V → V → St → List Ev × R × St :=
+  fun d x s => exec c body (env ++ [d, x]) s
 
 end GA.Body
